@@ -628,7 +628,12 @@ class TB:
                     return C((~a[1]) & ((1 << bits) - 1))
             return ("un", rv["op"], a)
         if k == "discr":
-            return ("discr", self.place(rv["pl"], at))
+            pv = self.place(rv["pl"], at)
+            if pv[0] == "ite":
+                da, db = self._variant_discr(pv[2]), self._variant_discr(pv[3])
+                if da is not None and db is not None:
+                    return ("ite", pv[1], C(da), C(db))
+            return ("discr", pv)
         if k == "aggr":
             ops = tuple(self.operand(o, at) for o in rv["ops"])
             ak = rv["ak"]
@@ -643,6 +648,18 @@ class TB:
         if k == "repeat":
             return ("aggr", ("repeat", rv.get("n")), (self.operand(rv["op"], at),))
         return ("opq", "rv", k)
+
+    def _variant_discr(self, v):
+        """discriminant value of an aggregate built as a named variant of a repo enum (from the compiler's adt table)"""
+        if v[0] == "aggr" and v[1][0] == "adt" and len(v[1]) > 2:
+            a = None
+            for key in (v[1][1] + "<'_>", v[1][1]):
+                a = self.F.adts.get(key) or a
+            if a and a.get("kind") == "enum":
+                for var in a.get("variants", []):
+                    if var["name"] == v[1][2]:
+                        return var.get("discr", var.get("idx"))
+        return None
 
     def binop(self, op, a, b, aty=None):
         if op in ("Sub", "SubUnchecked") and a[0] == "max" and (a[1] == b or a[2] == b):
@@ -734,6 +751,9 @@ class TB:
         return v
 
     def _call_value(self, t, bb):
+        return canon_alias(self.F, self._call_value0(t, bb))
+
+    def _call_value0(self, t, bb):
         at = (bb, len(self.body.stmts(bb)))
         fr = M.callee_of(t)
         args = tuple(self.operand(a, at) for a in t["args"])
@@ -756,6 +776,8 @@ class TB:
             return s
         # repo callee with MIR: inline
         inst = self.F.insts.get(key)
+        if key in call_aliases(self.F).values():
+            return ("call", key, args, None)       # a forwarding anchor stays a call of itself (see ALIAS_ANCHORS)
         if inst is not None and self.depth < MAX_INLINE and key not in self.stack:
             sm = summarize(self.F, inst, self.depth + 1, self.stack)
             if sm is not None and sm.ret is not None:
@@ -779,6 +801,55 @@ class TB:
         if t["k"] == "call":
             self.call_value(t, bb)
         return self._post_call_facts.get(bb, [])
+
+
+# Two functions of the reference tree compute the same thing, one by forwarding to the other: `TagType::val(&self)` and
+# `u32::from(TagType)`.  The rules name the conversion (`From<TagType> for u32`); which of the two holds the table and which
+# forwards is an implementation choice (C20 checks that one of them is the table and the other forwards).  Calls of the
+# forwarding partner are written as calls of the named one.  (anchor key suffix, partner path, how the argument is passed)
+ALIAS_ANCHORS = [
+    ("<impl core::convert::From<multiboot2::tag_type::TagType> for u32>::from", "multiboot2::tag_type::TagType::val"),
+]
+_alias_cache = {}
+
+
+def call_aliases(F):
+    """{partner key: anchor key} for the pairs where the *anchor forwards to the partner* (then the partner's calls appear in terms)"""
+    if id(F) in _alias_cache:
+        return _alias_cache[id(F)]
+    out = {}
+    _alias_cache[id(F)] = out
+    for (anchor_sfx, partner_path) in ALIAS_ANCHORS:
+        ak = [k for k in F.insts if k.endswith(anchor_sfx)]
+        pk = [k for k, v in F.insts.items() if v.get("path") == partner_path or k == partner_path]
+        if len(ak) != 1 or len(pk) != 1:
+            continue
+        body = F.insts[ak[0]]["body"]
+        calls = [bb["t"] for bb in body["blocks"] if not bb.get("cleanup") and bb["t"]["k"] == "call"]
+        # the anchor's body is one call of the partner on its own argument, and it returns exactly that call's result
+        if len(calls) == 1 and M.callee_key(calls[0]) == pk[0] and not any(bb["t"]["k"] in ("switch", "assert") for bb in body["blocks"] if not bb.get("cleanup")):
+            b_ = M.Body(F.insts[ak[0]])
+            tb_ = TB(F, b_)
+            rb = b_.return_blocks
+            if len(rb) == 1:
+                rt = tb_.read(0, (), (rb[0], len(b_.stmts(rb[0]))))
+                while isinstance(rt, tuple) and rt and rt[0] == "zext":
+                    rt = rt[1]
+                if isinstance(rt, tuple) and rt and rt[0] == "call" and rt[1] == pk[0] and len(rt[2]) == 1 and \
+                        rt[2][0][0] == "ref" and rt[2][0][1][0] == "arg" and rt[2][0][1][1] == 1:
+                    out[pk[0]] = ak[0]
+    return out
+
+
+def canon_alias(F, v):
+    if not (isinstance(v, tuple) and v and v[0] == "call" and isinstance(v[1], str)):
+        return v
+    al = call_aliases(F)
+    if v[1] in al and len(v[2]) == 1:
+        a = v[2][0]
+        inner = a[1] if a[0] == "ref" else ("deref", a)
+        return ("call", al[v[1]], (inner,)) + tuple(v[3:])
+    return v
 
 
 FORWARDERS = {
@@ -900,7 +971,19 @@ def std_summary(tb, path, upath, fr, args):
         return ("len", args[0])
     if path in ("core::slice::<impl [T]>::as_ptr", "core::slice::<impl [T]>::as_mut_ptr",
                 "core::str::<impl str>::as_ptr"):
-        return ("asptr", args[0])
+        a0 = args[0]
+        if a0[0] == "sub":
+            # a sub-slice starts `lo` elements into its base
+            es = F.size_of(g[0]) if g else None
+            if a0[2] == C(0):
+                return ("asptr", a0[1])
+            return ("ptrop", "add", ("asptr", a0[1]), a0[2], es if es is not None else ("sizeof", g[0] if g else "?"))
+        return ("asptr", a0)
+    if path == "core::slice::<impl [T]>::is_empty":
+        return ("bin", "Eq", ("len", args[0]), C(0), "usize")
+    if path == "core::slice::<impl [T]>::split_at" and len(args) == 2:
+        # (s[..mid], s[mid..]) - panics if mid > len (a PANIC site of its own)
+        return ("aggr", ("tuple",), (("sub", args[0], C(0), args[1]), ("sub", args[0], args[1], ("len", args[0]))))
     if path == "core::slice::<impl [T]>::as_ptr_range":
         # Range { start: s.as_ptr(), end: s.as_ptr().add(s.len()) }  (std contract)
         es = F.size_of(g[0]) if g else None
